@@ -522,8 +522,9 @@ static void check_call_step(int accepted)
  * Reference control states are named after the real ones where they coincide:
  *   10 after the name, 11 after a title, 12 after the '{' of a section body, 13 inside a list / argument
  *   list (closed by `ignore`), 14 after '=' / '+=', 15 (nested only) between two items of a skipped body.
- * DONE at top level is state 0; DONE inside a skipped body is state 15; the '}' that closes a skipped
- * body makes the nested invocation return STATE_CONTINUE. */
+ * DONE at top level is state 0; DONE inside a skipped body is state 15.  The open braces of skipped
+ * bodies are counted (skip_depth), not recursed into: '{ NAME' opens one more, the '}' that closes a
+ * body takes one off and leads to 15 while any is left, else to 0. */
 static void check_skipper(cfg_t *ctx, int act_kind, int act_state, struct pstate *ps)
 {
 	int T = the_token;
@@ -535,8 +536,8 @@ static void check_skipper(cfg_t *ctx, int act_kind, int act_state, struct pstate
 	const int done_state = nested ? 15 : 0;
 
 	(void)ctx;
-#if defined(CHK_C02) && LEVEL >= 100000 && PSTATE == 12
-	V_ASSERT(n_lex_nested == 0, "[C02] nesting is bounded: at depth 100000 the skipper does not recurse into yet another unknown section (stack)");
+#if PSTATE >= 10
+	V_ASSERT(n_lex_nested == 0, "[C02] skipping undeclared content never recurses (no stack growth with its nesting depth)");
 #endif
 #if defined(CHK_C15) && !defined(CHK_C12) && PSTATE >= 10
 	if (T == CFGT_COMMENT) { /* comments are transparent inside an undeclared item as well */
@@ -580,13 +581,17 @@ static void check_skipper(cfg_t *ctx, int act_kind, int act_state, struct pstate
 		V_ASSERT(act_kind == X_ERR && n_err >= 1, "[C12] after a title only '{' is well-formed");
 #elif PSTATE == 12
 	if (T == '}') {
-		V_ASSERT(n_lex_nested == 0, "[C12] an empty undeclared section consumes nothing beyond its closing brace");
+		V_ASSERT(*ps->skip_depth == pre_skip, "[C12] an empty undeclared section opens and closes no skipped body");
 		if (nested)
 			V_ASSERT(act_kind == X_CONT && act_state == 15, "[C12] an empty undeclared section inside a skipped body is one complete item");
 		else
 			V_ASSERT(act_kind == X_CONT && act_state == 0 && *ps->ignore == 0, "[C12] an empty undeclared section is skipped as one complete item");
-	} else if (T == CFGT_STR && LEVEL < 1000) {
-		V_ASSERT(n_lex_nested >= 1, "[C12] the body of an undeclared section is skipped by a nested invocation");
+	} else if (T == CFGT_STR) {
+		/* at ANY nesting level (the obligation's LEVEL may be the declared-section limit, the count any value) */
+		V_ASSERT(act_kind == X_CONT && act_state == 10 && *ps->skip_depth == pre_skip + 1 && n_err == 0,
+			 "[C12] the body of an undeclared section is entered by counting its brace, to any depth, the string being the name of its first item");
+	} else {
+		V_ASSERT(act_kind == X_ERR && n_err >= 1, "[C12] a skipped body starts with an item or ends at once");
 	}
 #elif PSTATE == 13
 	if (T == pre_ignore && pre_ignore != '=') {
@@ -611,7 +616,14 @@ static void check_skipper(cfg_t *ctx, int act_kind, int act_state, struct pstate
 	if (T == CFGT_STR)
 		V_ASSERT(act_kind == X_CONT && act_state == 10, "[C12] inside a skipped body a string starts the next undeclared item");
 	else if (T == '}')
-		V_ASSERT(act_kind == X_SKIPRET, "[C12] the closing brace of a skipped body ends the nested skip");
+		V_ASSERT(act_kind == X_CONT && *ps->skip_depth == pre_skip - 1 && act_state == (pre_skip > 1 ? 15 : 0),
+			 "[C12] the closing brace of a skipped body takes one off the count: more of the enclosing skipped body follows, or the skip is complete");
+	else
+		V_ASSERT(act_kind == X_ERR && n_err >= 1, "[C12] between two items of a skipped body only a name or the closing brace is well-formed");
+#endif
+#if PSTATE == 11 || PSTATE == 13 || PSTATE == 14
+	if (act_kind == X_CONT)
+		V_ASSERT(*ps->skip_depth == pre_skip, "[C12] only the braces of undeclared section bodies change the skip count");
 #endif
 	/* no diagnostic while skipping well-formed text */
 	if (act_kind != X_ERR)
